@@ -140,6 +140,7 @@ func init() {
 			c.obs = kept
 		}, func(c *Ctx) {
 			ruleProxyFill(c, "Y1-proxy-fill")
+			ruleNoSharedRuntimeStorage(c, "H1-no-shared-storage")
 			ruleGoidGate(c, "X3-goid-gate")
 			ruleNewFreePairing(c, "fast", "N1-new-free")
 			ruleMarkBeforeEscape(c, "fast", "M1-mark-before-escape")
@@ -147,7 +148,7 @@ func init() {
 			c.Floor("T4-proxy-order", 100)
 		}},
 		ThoroughConfigs: []string{"linux/386", "darwin/amd64", "linux/arm64", "freebsd/amd64", "windows/386"},
-		Technique: "AST/type-resolved custom analysis: table agreement of generated proxy structs with the interfaces they implement (go/types), positional agreement between proxy fields and the converter, dominance of the goroutine-id gate, pairing of frame acquisition and release",
+		Technique:       "AST/type-resolved custom analysis: table agreement of generated proxy structs with the interfaces they implement (go/types), positional agreement between proxy fields and the converter, dominance of the goroutine-id gate, pairing of frame acquisition and release",
 		Mutants: []Mutant{
 			{Name: "proxy-fields-reordered", File: "imports/io.go", Old: "\tObject\tinterface{}\n\tClose_\tfunc(interface{}) error\n\tRead_\tfunc(_proxy_obj_ interface{}, p []byte) (n int, err error)\n}", New: "\tObject\tinterface{}\n\tRead_\tfunc(_proxy_obj_ interface{}, p []byte) (n int, err error)\n\tClose_\tfunc(interface{}) error\n}", Canary: true},
 			{Name: "proxy-filled-from-field-zero", File: "fast/interface.go", Old: "setProxyField(vtable.Field(i+1), xr.ValueOf(e.Value))", New: "setProxyField(vtable.Field(i), xr.ValueOf(e.Value))", Canary: true},
